@@ -364,6 +364,18 @@ func runC02(res *hx.Result, rng *hx.Rng, tier string, outdir string) {
 		}
 		boundary = append(boundary, &dv{kind: "O", sig: zs, b: data, t: wg.Scalar("v")})
 	}
+	// directed: every scalar kind in every container position of an opaque signature, and the
+	// containers of zero-width elements (alone, nested, next to sized members), each with a value
+	// whose containers are all non-empty and with a random one
+	for _, t := range wg.DirectedTys(opaqueOpts.Scalars, opaqueOpts.KeyScalar, true) {
+		sg := t.Sig()
+		if sg == "[m]" || len(sg) == 1 {
+			continue
+		}
+		for _, tv := range []*wg.Val{wg.GenValFull(rng, t, 2), wg.GenVal(rng, t, 3)} {
+			boundary = append(boundary, &dv{kind: "O", sig: sg, b: tv.Enc(), t: t, tv: tv})
+		}
+	}
 	for i := 0; i < n+len(boundary); i++ {
 		var d *dv
 		if i < len(boundary) {
